@@ -42,10 +42,14 @@ Reduced(c) ==
 ZA(c, i) == IF c.has_za THEN c.za[i] ELSE 0
 ZB(c, j) == IF c.has_zb THEN c.zb[j] ELSE 0
 
-RECURSIVE DotImZpFrom(_, _, _, _, _, _, _, _)
-DotImZpFrom(A, im, K, za, zb, i, j, k) ==
+\* What a padded element of a quantized im2col operand is worth is not fixed at the GEMM level
+\* (the statement speaks of the operators): `pad` is either the raw value 0 or the column's zero
+\* point (contribution 0, the ONNX ConvInteger semantics, judged in Trace_QOps).  Both are accepted.
+RECURSIVE DotImZpFrom(_, _, _, _, _, _, _, _, _)
+DotImZpFrom(A, im, K, za, zb, pad, i, j, k) ==
   IF k > K THEN 0
-  ELSE (A[(i - 1) * K + k] - za) * (ImB(im, k, j) - zb) + DotImZpFrom(A, im, K, za, zb, i, j, k + 1)
+  ELSE (A[(i - 1) * K + k] - za) * (ImBPad(im, k, j, pad) - zb)
+       + DotImZpFrom(A, im, K, za, zb, pad, i, j, k + 1)
 
 \* Additive structure A[i,k] = av[i] + p[k], B[k,j] = q[k] + v[j]:
 \*   SUM_k (x + p[k]) (q[k] + y) = K*x*y + x*SQ + y*SP + SPQ,  x = av[i]-za[i], y = v[j]-zb[j].
@@ -54,13 +58,14 @@ DotAdd(c, SP, SQ, SPQ, i, j) ==
       y == c.v[j] - ZB(c, j)
   IN c.k * x * y + x * SQ + y * SP + SPQ
 
-Expected(c, SP, SQ, SPQ) ==
+Expected(c, SP, SQ, SPQ, padzp) ==
   [idx \in 1..(c.m * c.n) |->
      LET i == (idx - 1) \div c.n + 1
          j == ((idx - 1) % c.n) + 1
          dot == CASE c.fam = "dense" -> DotZp(c.a, c.b, c.k, c.n, ZA(c, i), ZB(c, j), i, j)
                   [] c.fam = "add" -> DotAdd(c, SP, SQ, SPQ, i, j)
-                  [] c.fam = "im2col" -> DotImZpFrom(c.a, c.im, c.k, ZA(c, i), ZB(c, j), i, j, 1)
+                  [] c.fam = "im2col" -> DotImZpFrom(c.a, c.im, c.k, ZA(c, i), ZB(c, j),
+                                                     IF padzp THEN ZB(c, j) ELSE 0, i, j, 1)
      IN dot + (IF c.beta = 0 THEN 0 ELSE c.beta * c.c0[idx]) + Bias(c, i, j)]
 
 Path(c) == IF c.m = 0 \/ c.n = 0 THEN "empty"
@@ -111,11 +116,11 @@ Case == /\ e.ev = "case"
                               !.pairs = IF e.cls = "pairs" THEN @ + 1 ELSE @]
         /\ UNCHANGED nbad
 
-Judge(c, r, judged, exp) ==
+Judge(c, r, judged, exp, exp2) ==
   LET mn == c.m * c.n
       pred == IF r.outcome # "ok" THEN r.outcome
               ELSE IF Len(r.out) # mn THEN "length"
-              ELSE IF judged /\ mn > 0 /\ r.out # exp THEN "value"
+              ELSE IF judged /\ mn > 0 /\ r.out # exp /\ (c.fam # "im2col" \/ r.out # exp2) THEN "value"
               ELSE "none"
   IN Flag(nbad, pred = "none", Sig(c, r, pred), Summary(c, r, exp))
 
@@ -124,7 +129,9 @@ Ret == /\ e.ev = "ret"
        /\ LET judged == ~cur.c.sat \/ Reduced(cur.c) IN
           /\ nbad' = Judge(cur.c, e, judged,
                            IF e.outcome = "ok" /\ judged
-                           THEN Expected(cur.c, cur.SP, cur.SQ, cur.SPQ) ELSE <<>>)
+                           THEN Expected(cur.c, cur.SP, cur.SQ, cur.SPQ, FALSE) ELSE <<>>,
+                           IF e.outcome = "ok" /\ judged /\ cur.c.fam = "im2col"
+                           THEN Expected(cur.c, cur.SP, cur.SQ, cur.SPQ, TRUE) ELSE <<>>)
           /\ cnt' = [cnt EXCEPT !.judged = IF judged THEN @ + 1 ELSE @,
                                 !.unjudged = IF judged THEN @ ELSE @ + 1,
                                 !.elems = IF judged THEN @ + cur.c.m * cur.c.n ELSE @,
